@@ -254,8 +254,13 @@ def stack_cases(draw):
     else:
         fam = draw(st.sampled_from([('<U1', '<U6'), ('float32', 'float64'), ('int8', 'int64'), ('M8[D]', 'M8[m]'), STACK_KINDS]))
         kinds = [draw(st.sampled_from(fam)) for _ in cols]
+    # ragged columns (some (outer, inner) pairs absent) leave cells to fill; the fill value may be of another type
+    keep = [j for j in range(len(cols)) if draw(st.integers(0, 3)) > 0] or [0]
+    fill = draw(st.sampled_from(['default', -1, 0.5, 'zz', 'default']))
+    cols = [cols[j] for j in keep]
+    kinds = [kinds[j] for j in keep]
     data = draw(st.lists(st.integers(0, 40), min_size=n * len(cols), max_size=n * len(cols)))
-    return {'n': n, 'cols': cols, 'kinds': kinds, 'data': np.array(data, dtype=np.int64).reshape(n, len(cols)),
+    return {'n': n, 'cols': cols, 'kinds': kinds, 'fill': fill, 'data': np.array(data, dtype=np.int64).reshape(n, len(cols)),
             'index': draw(gen.flat_labels(n, draw(st.sampled_from(['int', 'str']))))}
 
 
@@ -265,38 +270,53 @@ def check_stack(case):
     arrays = [_stack_col(k, case['data'][:, j].tolist()) if 'kinds' in case else case['data'][:, j] for j, k in enumerate(kinds)]
     data = arrays
     f = sf.Frame.from_items(zip(cols, [gen.freeze(a) for a in arrays]), index=case['index'], columns_constructor=sf.IndexHierarchy.from_labels)
-    st_ = lib(lambda: f.pivot_stack(1))
+    fill = case.get('fill', 'default')
+    fkw = {} if fill == 'default' else {'fill_value': fill}
+    st_ = lib(lambda: f.pivot_stack(1, **fkw))
     if isinstance(st_, Raised):
-        raise Failure('raised:%s' % st_.cls, 'pivot_stack raised %r' % st_.exc, st_.where)
-    # stacked: rows (index, inner), columns outer
-    cells = {}
-    gl, gc = obs.labels_of(st_.index), obs.labels_of(st_.columns)
-    scols = obs.frame_cols(st_)
-    for j, c in enumerate(gc):
-        for i, r in enumerate(gl):
-            v = arr_list(scols[j])[i]
-            if not is_missing(v):
-                cells[(_hk(r[0]), _hk(c), _hk(r[1]))] = v
+        raise Failure('raised:%s' % st_.cls, 'pivot_stack(1, %r) raised %r' % (fkw, st_.exc), st_.where)
+
+    def collect(fr, key_of, what):
+        # every cell is either an original cell or (where the source has no such cell) the fill value
+        out, filled = {}, 0
+        rl, cl_ = obs.labels_of(fr.index), obs.labels_of(fr.columns)
+        fc = obs.frame_cols(fr)
+        for j, c in enumerate(cl_):
+            for i, r in enumerate(rl):
+                v = arr_list(fc[j])[i]
+                k = key_of(r, c)
+                if k in want:
+                    out[k] = v
+                else:
+                    filled += 1
+                    if not ((fill == 'default' and is_missing(v)) or (fill != 'default' and eq(v, fill))):
+                        raise Failure('fill', '%s: cell %r has no source cell and holds %r, expected the fill value %r' % (what, k, v, 'missing' if fill == 'default' else fill))
+        return out, filled
     want = {}
     for i, r in enumerate(case['index']):
         for j, (a, b) in enumerate(cols):
             want[(_hk(r), _hk(a), _hk(b))] = arr_list(data[j])[i]
+    # stacked: rows (index, inner), columns outer
+    cells, nf1 = collect(st_, lambda r, c: (_hk(r[0]), _hk(c), _hk(r[1])), 'pivot_stack(1, %r)' % fkw)
     if set(cells) != set(want) or not all(eq(cells[k], want[k]) for k in want):
         raise Failure('stack', 'pivot_stack cells %s expected %s' % (short(sorted(cells.items(), key=repr), 300), short(sorted(want.items(), key=repr), 300)))
-    un = lib(lambda: st_.pivot_unstack(1))
+    un = lib(lambda: st_.pivot_unstack(1, **fkw))
     if isinstance(un, Raised):
-        raise Failure('raised:%s' % un.cls, 'pivot_unstack raised %r' % un.exc, un.where)
-    ul, uc = obs.labels_of(un.index), obs.labels_of(un.columns)
-    ucols = obs.frame_cols(un)
-    got = {}
-    for j, c in enumerate(uc):
-        for i, r in enumerate(ul):
-            v = arr_list(ucols[j])[i]
-            if not is_missing(v):
-                got[(_hk(r), _hk(c[0]), _hk(c[1]))] = v
+        raise Failure('raised:%s' % un.cls, 'pivot_unstack(1, %r) raised %r' % (fkw, un.exc), un.where)
+    got, nf2 = collect(un, lambda r, c: (_hk(r), _hk(c[0]), _hk(c[1])), 'stack then unstack(%r)' % fkw)
     if set(got) != set(want) or not all(eq(got[k], want[k]) for k in want):
         raise Failure('unstack', 'stack then unstack: cells %s expected %s' % (short(sorted(got.items(), key=repr), 300), short(sorted(want.items(), key=repr), 300)))
-    return {'nt': n >= 2 and len(cols) >= 2, 'cls': ['stack', 'stack-dtypes:%d' % len(set(kinds))]}
+    nf3 = 0
+    if len(set(kinds)) == 1 and kinds[0] in ('int64', 'float64'):
+        # the transposed frame has the ragged hierarchy on its rows: unstacking it meets groups without a target directly
+        ft = f.transpose()
+        ut = lib(lambda: ft.pivot_unstack(1, **fkw))
+        if isinstance(ut, Raised):
+            raise Failure('raised:%s' % ut.cls, 'pivot_unstack(1, %r) on a ragged hierarchical index raised %r' % (fkw, ut.exc), ut.where)
+        gt, nf3 = collect(ut, lambda r, c: (_hk(c[0]), _hk(r), _hk(c[1])), 'unstack of a ragged index (%r)' % fkw)
+        if set(gt) != set(want) or not all(eq(gt[k], want[k]) for k in want):
+            raise Failure('unstack', 'unstack of a ragged index: cells %s expected %s' % (short(sorted(gt.items(), key=repr), 300), short(sorted(want.items(), key=repr), 300)))
+    return {'nt': n >= 2 and len(cols) >= 2, 'cls': ['stack', 'stack-dtypes:%d' % len(set(kinds)), 'fill:%s' % type(fill).__name__] + (['cells-filled'] if nf1 + nf2 + nf3 else [])}
 
 
 # ---------------------------------------------------------------------------------------------
